@@ -150,6 +150,28 @@ def run(ctx):
             raise AnchorMissing("EvidentValue::%s" % nm)
         b = hir.last_expr(its[0]["body"])
         ctx.ob("K-ACCESSOR", "EvidentValue::%s -> %s" % (nm, target), b["k"] == "MethodCall" and b["method"] == target and field_path(b["recv"]) == ("self",), "")
+    # setters: set_frequency writes field 0 of exactly the variants that have one, set_confidence field 1; otherwise panic
+    for nm, k in (("set_frequency", 0), ("set_confidence", 1)):
+        its = [it for p_, it in f.hir.items() if it["name"] == nm and (it.get("impl") or {}).get("self_ty") == TYPES["Truth"][0]]
+        if len(its) != 1:
+            raise AnchorMissing("Truth::%s" % nm)
+        ctx.fn(its[0])
+        m = hir.top_match(its[0])
+        pn = [q["name"] for q in its[0]["params"] if q["k"] == "Binding" and q["name"] != "self"]
+        wr, panics, good = set(), False, True
+        arity = {v["name"]: len(v["fields"]) for v in f.adts[TYPES["Truth"][0]]["variants"]}
+        for v, arm, pat in hir.arms_by_variant(m):
+            if v == "_":
+                panics = any("panic" in (hir.callee(c) or "") or (hir.callee(c) or "").startswith("std::rt::") for c in hir.find_calls(arm["body"]))
+                continue
+            binds = hir.pat_bindings(pat)
+            b = strip(arm["body"])
+            okb = b["k"] == "Assign" and strip(b["l"])["k"] == "Unary" and len(binds) > k and field_path(strip(b["l"])["e"]) == (binds[k],) \
+                and strip(b["r"])["k"] == "Unary" and field_path(strip(b["r"])["e"]) == (pn[0],)
+            good = good and okb
+            wr.add(v)
+        want = {v for v, n in arity.items() if n > k}
+        ctx.ob("K-ACCESSOR", "Truth::%s writes field %d of exactly %s" % (nm, k, sorted(want)), good and wr == want and panics, "writes for %s; panics otherwise: %s" % (sorted(wr), panics))
     # ---- V-ROOT: shape of the n-th root (the numeric law itself stays undecided)
     ctx.rule("V-ROOT", "structural necessary condition of `root(n) of a valid number is valid`: the blanket impl computes "
              "Self::from(self.into().powf(1.0 / (n as FloatPrecision))) -- the exponent is the reciprocal of n converted DIRECTLY to the float type "
